@@ -438,7 +438,8 @@ static int flush_io (hawk_rtx_t* rtx, hawk_out_type_t out_type, const hawk_ooch_
 			*/
 			if (hawk_rtx_geterrnum(rtx) == HAWK_EIONMNF)
 			{
-				if (n != 0) n = -2;
+				/* keep -1 set for a handler failure on a stream of another type */
+				if (n != 0 && n != -1) n = -2;
 			}
 			else n = -1;
 		}
